@@ -1,6 +1,7 @@
 package main
 
 import (
+	"sort"
 	"fmt"
 	"go/token"
 	"go/types"
@@ -15,132 +16,7 @@ func init() { checks["C19"] = checkC19 }
 func checkC19(w *World, r *Report) {
 	r.Explain = "Wrapper-transparency rules (E7) on SSA paths plus method-set facts from go/types: each forwarding method of the proxy types makes exactly one call of the wrapped value's method with its parameters passed through, returns that call's (n, err) unchanged, and hands n exactly once on every path (including error paths) to the bar's increment entry point - the Ewma flavour with time.Since(start) where start = time.Now() was taken before the call, chosen exactly for the ewma proxy types; constructors return a type that has WriteTo/ReadFrom in its method set exactly on returns dominated by the successful assertion on the caller's value, and pick the ewma flavour from the constructor's flag, which the Bar methods compute as len(ewmaDecorators) != 0; Close of every proxy type is promoted from the embedded interface; toReadCloser/toWriteCloser return the argument itself when it already closes, and the no-op closer preserves ReaderFrom. With C09 for the bar side this is close to the whole property; io.NopCloser is trusted."
 	r.Assume = append(r.Assume, "io.NopCloser forwards Read and offers WriteTo iff the wrapped reader does (standard library)", "C09 for the bar's counter rules")
-	inc := map[string]bool{"IncrBy": true, "IncrInt64": true}
-	ewmaInc := map[string]bool{"EwmaIncrBy": true, "EwmaIncrInt64": true}
-	n := 0
-	var proxyTypes []*types.Named
-	for _, m := range w.Mpb.Members {
-		t, ok := m.(*ssa.Type)
-		if !ok {
-			continue
-		}
-		nt, ok := t.Type().(*types.Named)
-		if !ok {
-			continue
-		}
-		name := nt.Obj().Name()
-		if !(strings.Contains(strings.ToLower(name), "proxy")) {
-			continue
-		}
-		proxyTypes = append(proxyTypes, nt)
-	}
-	for _, fn := range w.ModFns {
-		if fn.Pkg != w.Mpb || fn.Parent() != nil || fn.Signature.Recv() == nil {
-			continue
-		}
-		rt := typeName(fn.Signature.Recv().Type())
-		short := strings.TrimPrefix(rt, "mpb.")
-		if !strings.Contains(strings.ToLower(short), "proxy") {
-			continue
-		}
-		switch fn.Name() {
-		case "Read", "Write", "WriteTo", "ReadFrom":
-		default:
-			continue
-		}
-		n++
-		isEwma := strings.HasPrefix(strings.ToLower(short), "ewma")
-		construct := short + "." + fn.Name()
-		bad := ""
-		nP, _ := w.enumPaths(fn, pathOpts{}, func(p *Path) {
-			if bad != "" {
-				return
-			}
-			if p.Exit != "return" {
-				return
-			}
-			var under []*ssa.Call
-			var incs []*ssa.Call
-			var nowC, sinceC *ssa.Call
-			idx := map[*ssa.Call]int{}
-			for _, ev := range p.Events {
-				c, ok := ev.In.(*ssa.Call)
-				if !ok {
-					continue
-				}
-				idx[c] = ev.Idx
-				if c.Call.IsInvoke() && c.Call.Method.Name() == fn.Name() {
-					under = append(under, c)
-				}
-				if sc := c.Call.StaticCallee(); sc != nil {
-					if sc.Signature.Recv() != nil && typeName(sc.Signature.Recv().Type()) == tBar && (inc[sc.Name()] || ewmaInc[sc.Name()]) {
-						incs = append(incs, c)
-					}
-					if sc.String() == "time.Now" {
-						nowC = c
-					}
-					if sc.String() == "time.Since" {
-						sinceC = c
-					}
-				}
-			}
-			if len(under) != 1 {
-				bad = fmt.Sprintf("%d calls of the wrapped value's %s on a path (must be exactly one)", len(under), fn.Name())
-				return
-			}
-			u := under[0]
-			// parameter passed through
-			if len(u.Call.Args) != 1 || u.Call.Args[0] != ssa.Value(fn.Params[1]) {
-				bad = "the caller's argument is not passed through to the wrapped value"
-				return
-			}
-			// results unchanged
-			if len(p.Ret) != 2 {
-				bad = "does not return (n, err)"
-				return
-			}
-			for i, rv := range p.Ret {
-				ex, ok := rv.V.(*ssa.Extract)
-				if !ok || ex.Tuple != ssa.Value(u) || ex.Index != i {
-					bad = "the wrapped call's (n, err) is not returned unchanged"
-					return
-				}
-			}
-			// increment exactly once with n
-			if len(incs) != 1 {
-				bad = fmt.Sprintf("the bar is advanced %d times on a path (every byte count, also one returned together with an error or EOF, must be accounted exactly once)", len(incs))
-				return
-			}
-			ic := incs[0]
-			if idx[ic] < idx[u] {
-				bad = "the bar is advanced before the data was transferred"
-				return
-			}
-			nv, ok := stripConv(ic.Call.Args[1]).(*ssa.Extract)
-			if !ok || nv.Tuple != ssa.Value(u) || nv.Index != 0 {
-				bad = "the bar is advanced by something other than the byte count of the wrapped call"
-				return
-			}
-			name := ic.Call.StaticCallee().Name()
-			if isEwma {
-				if !ewmaInc[name] {
-					bad = "an ewma proxy advances the bar without feeding the moving-average decorators (they never see these bytes nor their duration)"
-					return
-				}
-				if nowC == nil || sinceC == nil || idx[nowC] > idx[u] || idx[sinceC] < idx[u] {
-					bad = "the duration handed to the moving-average decorators is not measured around the wrapped call (Now before, Since after)"
-					return
-				}
-				if sinceC.Call.Args[0] != ssa.Value(nowC) || ic.Call.Args[2] != ssa.Value(sinceC) {
-					bad = "the duration handed on is not time.Since(start) of the start taken before the call"
-				}
-			} else if !inc[name] {
-				bad = "a plain proxy uses the ewma increment"
-			}
-		})
-		r.Check(bad == "" && nP > 0, "C19.P-FORWARD", construct, w.pos(fn.Pos()), "one wrapped call, results unchanged, n accounted once (timed for ewma)", bad)
-	}
-	r.Floor("C19.P-FORWARD", 8, "Read x2, WriteTo x2, Write x2, ReadFrom x2")
+	proxyTypes := ruleProxyForward(w, r, "C19")
 
 	// the fast-path assertion inside WriteTo/ReadFrom methods is on the embedded interface value
 	checkProxyAssertions(w, r, "C19.P-ASSERT")
@@ -384,7 +260,6 @@ func checkC19(w *World, r *Report) {
 		r.Check(len(sel.Index()) > 1 && isIface && viaIface, "C19.P-CLOSE", construct, w.pos(nt.Obj().Pos()), "promoted from the embedded ReadCloser/WriteCloser", "Close is declared on the proxy type instead of being forwarded to the wrapped value")
 	}
 	r.Floor("C19.P-CLOSE", 8, "proxy types")
-	_ = n
 	ruleTimeConservation(w, r, "C19")
 	ruleSamplesReach(w, r, "C19")
 	ruleUnwrap(w, r, "C19")
@@ -418,25 +293,194 @@ func (w *World) proxyMethodFlavour(t types.Type, name string) string {
 		return "" // e.g. promoted from the wrapped interface value: not an accounting method
 	}
 	out := ""
-	for _, b := range fn.Blocks {
-		for _, in := range b.Instrs {
-			c, ok := in.(*ssa.Call)
-			if !ok {
-				continue
-			}
-			sc := c.Call.StaticCallee()
-			if sc == nil || sc.Signature.Recv() == nil || typeName(sc.Signature.Recv().Type()) != tBar {
-				continue
-			}
-			switch sc.Name() {
-			case "EwmaIncrBy", "EwmaIncrInt64":
-				out = "ewma"
-			case "IncrBy", "IncrInt64":
-				if out == "" {
-					out = "plain"
+	for _, f := range sortedFns(w.unit(fn)) {
+		for _, b := range f.Blocks {
+			for _, in := range b.Instrs {
+				c, ok := in.(*ssa.Call)
+				if !ok {
+					continue
+				}
+				sc := c.Call.StaticCallee()
+				if sc == nil || sc.Signature.Recv() == nil || typeName(sc.Signature.Recv().Type()) != tBar {
+					continue
+				}
+				switch sc.Name() {
+				case "EwmaIncrBy", "EwmaIncrInt64":
+					out = "ewma"
+				case "IncrBy", "IncrInt64":
+					if out == "" {
+						out = "plain"
+					}
 				}
 			}
 		}
 	}
 	return out
+}
+
+// ruleProxyForward (P-FORWARD): every accounting method of the proxy types forwards once, returns
+// the wrapped call's results unchanged and hands the byte count - on every path - exactly once
+// to the bar, the Ewma flavour with the duration measured around the wrapped call. Returns the proxy types.
+func ruleProxyForward(w *World, r *Report, pfx string) []*types.Named {
+	inc := map[string]bool{"IncrBy": true, "IncrInt64": true}
+	ewmaInc := map[string]bool{"EwmaIncrBy": true, "EwmaIncrInt64": true}
+	n := 0
+	// proxy types: the struct types the proxy constructors return, and the structs they embed,
+	// as far as they carry the bar they account to (found by shape, not by name)
+	var proxyTypes []*types.Named
+	isProxy := map[string]bool{}
+	var addT func(t types.Type, d int)
+	addT = func(t types.Type, d int) {
+		nt, ok := t.(*types.Named)
+		if !ok || d > 3 || isProxy[nt.Obj().Name()] {
+			return
+		}
+		st, ok := nt.Underlying().(*types.Struct)
+		if !ok || nt.Obj().Pkg() == nil || nt.Obj().Pkg() != w.Mpb.Pkg {
+			return
+		}
+		hasBar := false
+		var walk func(s *types.Struct, dd int)
+		walk = func(s *types.Struct, dd int) {
+			for i := 0; i < s.NumFields(); i++ {
+				f := s.Field(i)
+				if typeName(f.Type()) == tBar {
+					hasBar = true
+				}
+				if es, ok := f.Type().Underlying().(*types.Struct); ok && f.Embedded() && dd < 3 {
+					walk(es, dd+1)
+				}
+			}
+		}
+		walk(st, 0)
+		if !hasBar {
+			return
+		}
+		isProxy[nt.Obj().Name()] = true
+		proxyTypes = append(proxyTypes, nt)
+		for i := 0; i < st.NumFields(); i++ {
+			if f := st.Field(i); f.Embedded() {
+				addT(f.Type(), d+1)
+			}
+		}
+	}
+	for _, cn := range []string{"mpb.newProxyReader", "mpb.newProxyWriter"} {
+		if c := w.Func(cn); c != nil {
+			for _, f := range sortedFns(w.unit(c)) {
+				for _, b := range f.Blocks {
+					for _, in := range b.Instrs {
+						if mi, ok := in.(*ssa.MakeInterface); ok {
+							addT(mi.X.Type(), 0)
+						}
+					}
+				}
+			}
+		}
+	}
+	sort.Slice(proxyTypes, func(i, j int) bool { return proxyTypes[i].Obj().Name() < proxyTypes[j].Obj().Name() })
+	for _, fn := range w.ModFns {
+		if fn.Pkg != w.Mpb || fn.Parent() != nil || fn.Signature.Recv() == nil || fn.Synthetic != "" {
+			continue
+		}
+		rt := typeName(fn.Signature.Recv().Type())
+		short := strings.TrimPrefix(rt, "mpb.")
+		if !isProxy[short] {
+			continue
+		}
+		switch fn.Name() {
+		case "Read", "Write", "WriteTo", "ReadFrom":
+		default:
+			continue
+		}
+		n++
+		construct := short + "." + fn.Name()
+		bad := ""
+		nP, _ := w.enumPaths(fn, pathOpts{InlineDepth: 2, Inline: w.helperInline(fn)}, func(p *Path) {
+			if bad != "" {
+				return
+			}
+			if p.Exit != "return" {
+				return
+			}
+			var under, incs []Event
+			var nowE, sinceE *Event
+			for i := range p.Events {
+				ev := p.Events[i]
+				c, ok := ev.In.(*ssa.Call)
+				if !ok {
+					continue
+				}
+				if c.Call.IsInvoke() && c.Call.Method.Name() == fn.Name() {
+					under = append(under, ev)
+				}
+				if sc := c.Call.StaticCallee(); sc != nil {
+					if sc.Signature.Recv() != nil && typeName(sc.Signature.Recv().Type()) == tBar && (inc[sc.Name()] || ewmaInc[sc.Name()]) {
+						incs = append(incs, ev)
+					}
+					if sc.String() == "time.Now" {
+						nowE = &p.Events[i]
+					}
+					if sc.String() == "time.Since" {
+						sinceE = &p.Events[i]
+					}
+				}
+			}
+			if len(under) != 1 {
+				bad = fmt.Sprintf("%d calls of the wrapped value's %s on a path (must be exactly one)", len(under), fn.Name())
+				return
+			}
+			uE := under[0]
+			u := uE.In.(*ssa.Call)
+			// parameter passed through
+			if len(u.Call.Args) != 1 || p.stripR(p.val(uE, u.Call.Args[0])).V != ssa.Value(fn.Params[1]) {
+				bad = "the caller's argument is not passed through to the wrapped value"
+				return
+			}
+			// results unchanged
+			if len(p.Ret) != 2 {
+				bad = "does not return (n, err)"
+				return
+			}
+			for i, rv := range p.Ret {
+				ex, ok := p.R(rv).V.(*ssa.Extract)
+				if !ok || ex.Tuple != ssa.Value(u) || ex.Index != i {
+					bad = "the wrapped call's (n, err) is not returned unchanged"
+					return
+				}
+			}
+			// increment exactly once with n
+			if len(incs) != 1 {
+				bad = fmt.Sprintf("the bar is advanced %d times on a path (every byte count, also one returned together with an error or EOF, must be accounted exactly once)", len(incs))
+				return
+			}
+			icE := incs[0]
+			ic := icE.In.(*ssa.Call)
+			if icE.Idx < uE.Idx {
+				bad = "the bar is advanced before the data was transferred"
+				return
+			}
+			nv, ok := p.stripR(p.val(icE, ic.Call.Args[1])).V.(*ssa.Extract)
+			if !ok || nv.Tuple != ssa.Value(u) || nv.Index != 0 {
+				bad = "the bar is advanced by something other than the byte count of the wrapped call"
+				return
+			}
+			// the bar advanced is the proxy's own
+			name := ic.Call.StaticCallee().Name()
+			if ewmaInc[name] {
+				// timed flavour: the duration is time.Since(start) with start = time.Now() taken before the wrapped call
+				if nowE == nil || sinceE == nil || nowE.Idx > uE.Idx || sinceE.Idx < uE.Idx {
+					bad = "the duration handed to the moving-average decorators is not measured around the wrapped call (Now before, Since after)"
+					return
+				}
+				sc := sinceE.In.(*ssa.Call)
+				if p.stripR(p.val(*sinceE, sc.Call.Args[0])).V != ssa.Value(nowE.In.(*ssa.Call)) || p.stripR(p.val(icE, ic.Call.Args[2])).V != ssa.Value(sc) {
+					bad = "the duration handed on is not time.Since(start) of the start taken before the call"
+				}
+			}
+		})
+		r.Check(bad == "" && nP > 0, pfx+".P-FORWARD", construct, w.pos(fn.Pos()), "one wrapped call, results unchanged, n accounted once (timed for ewma)", bad)
+	}
+	r.Floor(pfx+".P-FORWARD", 8, "Read x2, WriteTo x2, Write x2, ReadFrom x2")
+
+	return proxyTypes
 }
